@@ -73,11 +73,11 @@ def License.ofValue (x : Str) : License :=
 def formatPrefix : Str := "Format:".toList
 
 /-- the machine-readable gate: `s.starts_with("Format:")` and nothing else
-    (lossless.rs:112, lossless.rs:190, lossy.rs:105) -/
+    (lossless.rs:112, lossless.rs:190, lossy.rs:106) -/
 def gate (s : Str) : Bool := startsWith s formatPrefix
 
 /-- `patterns.iter().any(|f| glob_to_regex(f).is_match(path))` (lossless.rs:308-312,
-    lossy.rs:186-190): `any` stops at the first match, so a later pattern is not compiled -/
+    lossy.rs:187-191): `any` stops at the first match, so a later pattern is not compiled -/
 def anyMatch (gs : List Str) (path : Str) : Outcome Bool :=
   match gs with
   | [] => .ok false
@@ -144,13 +144,15 @@ def findFiles (c : Doc) (path : Str) : Outcome (Option Para) :=
 /-- `FilesParagraph::license` (lossless.rs:340-353) -/
 def license (fp : Para) : Option License := (fp.get kLicense).map License.ofValue
 
-/-- `LicenseParagraph::name` (lossless.rs:392-396): `None` unless the value has a newline -/
+/-- `LicenseParagraph::name` (lossless.rs:392-398, after fix d2a6901): the first line of the
+    field, whether or not text follows -/
 def licName (p : Para) : Option Str :=
-  match p.get kLicense with
-  | none => none
-  | some x => (splitOnce '\n' x).map (·.1)
+  (p.get kLicense).map fun x =>
+    match splitOnce '\n' x with
+    | none => x
+    | some r => r.1
 
-/-- `LicenseParagraph::text` (lossless.rs:399-403) -/
+/-- `LicenseParagraph::text` (lossless.rs:401-405) -/
 def licText (p : Para) : Option Str :=
   match p.get kLicense with
   | none => none
@@ -187,7 +189,7 @@ end Lossless
 /-! ## lossy view (src/lossy.rs) -/
 namespace Lossy
 
-/-- lossy.rs:172-182 (`copyright`, `comment` carried but not used by the lookup) -/
+/-- lossy.rs:173-183 (`copyright`, `comment` carried but not used by the lookup) -/
 structure FilesParagraph where
   files : List Str
   license : License
@@ -195,13 +197,13 @@ structure FilesParagraph where
   comment : Option Str
   deriving DecidableEq, Repr
 
-/-- lossy.rs:145-154 -/
+/-- lossy.rs:146-155 -/
 structure LicenseParagraph where
   license : License
   comment : Option Str
   deriving DecidableEq, Repr
 
-/-- lossy.rs:48-65 -/
+/-- lossy.rs:50-67 -/
 structure Header where
   format : Str
   filesExcluded : Option (List Str)
@@ -209,7 +211,7 @@ structure Header where
   upstreamContact : Option Str
   deriving DecidableEq, Repr
 
-/-- lossy.rs:88-99 -/
+/-- lossy.rs:89-100 -/
 structure Copyright where
   header : Header
   files : List FilesParagraph
@@ -223,8 +225,8 @@ inductive Err where
   | msg (m : Str)
   deriving DecidableEq, Repr
 
-/-- `deserialize_file_list` (lossy.rs:41-43): `text.split('\n')` — newlines only -/
-def deserializeFileList (text : Str) : List Str := splitOn '\n' text
+/-- `deserialize_file_list` (lossy.rs:41-44, after fix 546a36f): `text.split_whitespace()` -/
+def deserializeFileList (text : Str) : List Str := splitWhitespace text
 
 def missing (key : Str) : Err := .msg ("missing field: ".toList ++ key)
 
@@ -268,7 +270,7 @@ def LicenseParagraph.ofPara (p : Para) : Except Err LicenseParagraph :=
   | .error e => .error e
   | .ok l => .ok { license := License.ofValue l, comment := p.get kComment }
 
-/-- the `while let Some(para) = paragraphs.next()` loop (lossy.rs:126-134) -/
+/-- the `while let Some(para) = paragraphs.next()` loop (lossy.rs:127-135) -/
 def classify : List Para → Except Err (List FilesParagraph × List LicenseParagraph)
   | [] => .ok ([], [])
   | p :: rest =>
@@ -288,7 +290,7 @@ def classify : List Para → Except Err (List FilesParagraph × List LicensePara
         | .ok r => .ok (r.1, l :: r.2)
     else .error (.msg "Paragraph is neither License nor Files".toList)
 
-/-- `Copyright::from_str` (lossy.rs:104-142); `read` = `Deb822::from_str` -/
+/-- `Copyright::from_str` (lossy.rs:105-143); `read` = `Deb822::from_str` -/
 def fromStr (read : Str → Option Doc) (s : Str) : Except Err Copyright :=
   if !gate s then .error .notMachineReadable
   else match read s with
@@ -302,18 +304,18 @@ def fromStr (read : Str → Option Doc) (s : Str) : Except Err Copyright :=
         | .error e => .error e
         | .ok r => .ok { header := h, files := r.1, licenses := r.2 }
 
-/-- `FilesParagraph::matches` (lossy.rs:186-190) -/
+/-- `FilesParagraph::matches` (lossy.rs:187-191) -/
 def paraMatches (fp : FilesParagraph) (path : Str) : Outcome Bool := anyMatch fp.files path
 
-/-- `Copyright::find_files` (lossy.rs:223-225) -/
+/-- `Copyright::find_files` (lossy.rs:224-226) -/
 def findFiles (c : Copyright) (path : Str) : Outcome (Option FilesParagraph) :=
   (filterO (paraMatches · path) c.files).map List.getLast?
 
-/-- `Copyright::find_license_by_name` (lossy.rs:242-247) -/
+/-- `Copyright::find_license_by_name` (lossy.rs:243-248) -/
 def findLicenseByName (c : Copyright) (name : Str) : Option License :=
   (c.licenses.find? (fun p => p.license.name? == some name)).map (·.license)
 
-/-- `Copyright::find_license_for_file` (lossy.rs:228-234) -/
+/-- `Copyright::find_license_for_file` (lossy.rs:229-235) -/
 def findLicenseForFile (c : Copyright) (path : Str) : Outcome (Option License) :=
   match findFiles c path with
   | .panic s => .panic s
@@ -321,7 +323,7 @@ def findLicenseForFile (c : Copyright) (path : Str) : Outcome (Option License) :
   | .ok (some fp) =>
     if fp.license.text?.isSome then .ok (some fp.license)
     else match fp.license.name? with
-      | none => .panic "lossy.rs:233 unwrap on None"
+      | none => .panic "lossy.rs:234 unwrap on None"
       | some n => .ok (findLicenseByName c n)
 
 end Lossy
@@ -373,24 +375,46 @@ def licenseFor (c : Doc) (fp : Para) : Option License :=
 def findLicenseForFile (c : Doc) (path : Str) : Option License :=
   (findFiles c path).bind (licenseFor c)
 
-/-- a Files paragraph / stand-alone licence paragraph inside the property's quantifier: Files with
-    at least one pattern, all with valid escapes, Copyright, a non-empty License; or License with a
-    non-empty first line and no Files -/
-def wellFormedPara (p : Para) : Bool :=
+/-! ### the property's domain, one named condition per clause -/
+
+/-- a paragraph after the header is a Files paragraph with License and Copyright, or a
+    stand-alone licence paragraph (License, no Files) -/
+def shapePara (p : Para) : Bool :=
   match p.get kFiles, p.get kLicense with
-  | some f, some l =>
-    (p.get kCopyright).isSome && l != [] && splitWhitespace f != [] &&
-      (splitWhitespace f).all validEscapes
-  | none, some l => l != [] && l.head? != some '\n'
+  | some _, some _ => (p.get kCopyright).isSome
+  | none, some _ => true
   | _, _ => false
 
-/-- header paragraph (Format, neither Files nor License) followed by well-formed paragraphs -/
-def wellFormed (c : Doc) : Bool :=
+/-- **shape** ("a machine-readable file"): a header paragraph with a Format field first, every
+    other paragraph a Files paragraph or a stand-alone licence paragraph. This is exactly what the
+    lossy reader accepts (`Props.C17.C17_lossy_accepts_iff`); the lossless reader asks for nothing. -/
+def lossyShape (c : Doc) : Bool :=
   match c with
   | [] => false
-  | h :: rest =>
-    (h.get kFormat).isSome && (h.get kFiles).isNone && (h.get kLicense).isNone &&
-      rest.all wellFormedPara
+  | h :: rest => (h.get kFormat).isSome && rest.all shapePara
+
+/-- **header only**: the first paragraph is only a header — it has neither a Files nor a License
+    field (the lossless `iter_files`/`iter_licenses` run over the first paragraph too, the lossy
+    reader sets it aside as the header) -/
+def headerOnly (c : Doc) : Bool :=
+  match c with
+  | [] => true
+  | h :: _ => (h.get kFiles).isNone && (h.get kLicense).isNone
+
+/-- **licences named**: no stand-alone licence field begins with an empty line. (Lossless: the
+    name of such a paragraph is the empty string; lossy: `License::Text` has no name. The deb822
+    reader never returns such a value — its values are non-empty lines joined by `\n` — so this is
+    a condition on abstract paragraph lists only.) -/
+def licenceNamed (c : Doc) : Bool :=
+  (standalone c).all fun p => ((p.get kLicense).getD []).head? != some '\n'
+
+/-- **valid escapes**: every backslash of every pattern is followed by `*`, `?` or a backslash -/
+def patternsValid (c : Doc) : Bool :=
+  (filesParas c).all fun p => (patterns p).all validEscapes
+
+/-- inside the property's quantifier -/
+def wellFormed (c : Doc) : Bool :=
+  lossyShape c && headerOnly c && licenceNamed c && patternsValid c
 
 end Spec
 
@@ -424,31 +448,4 @@ def Spec.answer (c : Doc) (path : Str) : Answer where
   idx := .ok (lastIdxWhere (Spec.paraMatchesB · path) (Spec.filesParas c))
   lic := .ok (Spec.findLicenseForFile c path)
 
-/-! ## open findings: trigger predicates (`known_findings.json`) -/
-namespace Finding
-
-/-- the request lies inside the property's quantifier -/
-def inDomain (s : Str) (strictOk : Bool) (c : Doc) (path : Str) : Bool :=
-  gate s && strictOk && Spec.wellFormed c && !path.contains '\n'
-
-/-- F-C17-1: `lossy::deserialize_file_list` splits the Files field on `\n` only. Region: a
-    well-formed file in which some Files field splits differently on newlines than on whitespace,
-    and the lossy answer is not the property's. -/
-def f1 (s : Str) (strictOk : Bool) (c : Doc) (path : Str) : Bool :=
-  inDomain s strictOk c path &&
-  (Spec.filesParas c).any (fun p =>
-    Lossy.deserializeFileList ((p.get kFiles).getD []) != splitWhitespace ((p.get kFiles).getD [])) &&
-  (match Lossy.fromStr (fun _ => some c) s with
-   | .ok cr => Lossy.answer cr path != Spec.answer c path
-   | .error _ => false)
-
-/-- F-C17-2: lossless `LicenseParagraph::name()` is `None` for a stand-alone licence paragraph
-    whose License field has no text, so `find_license_by_name` skips it. Region: a well-formed
-    file with such a paragraph, and the lossless answer is not the property's. -/
-def f2 (s : Str) (strictOk : Bool) (c : Doc) (path : Str) : Bool :=
-  inDomain s strictOk c path &&
-  (Spec.standalone c).any (fun p => !Spec.hasText ((p.get kLicense).getD [])) &&
-  Lossless.answer c path != Spec.answer c path
-
-end Finding
 end Deb822Verif.Copyright
